@@ -28,7 +28,7 @@ def gen_script(rng, nops):
             elif r < 0.5:
                 ops.append(f"R:{rng.randrange(K)}")
             elif r < 0.65:
-                ops.append(f"S:{rng.choice([3, 4])}:{rng.choice(['n', 'i5', 'i6', 'p0'])}")
+                ops.append(f"S:{rng.choice([3, 4])}:{rng.choice(['n', 'i5', 'i6', 'i0', 'p0'])}")
             elif r < 0.8:
                 ops.append(f"U:{rng.randrange(K)}")
             else:
@@ -46,11 +46,11 @@ def gen_script(rng, nops):
         elif r < 0.33:
             lines.append(f"timer.remove 0 {rng.randrange(K)}")
         elif r < 0.41:
-            lines.append(f"sub 0 {rng.randrange(K)} {rng.choice(['n', 'i5', 'i6', 'p0'])}")
+            lines.append(f"sub 0 {rng.randrange(K)} {rng.choice(['n', 'i5', 'i6', 'i0', 'p0'])}")
         elif r < 0.47:
             lines.append(f"unsub 0 {rng.randrange(K)}")
         elif r < 0.55:
-            dest = rng.choice([255, 5, 6, 9, 77])
+            dest = rng.choice([255, 5, 6, 9, 0, 77])
             lines.append(f"ecu.notify 0 {rng.randrange(8)} {rng.choice([65226, 61184, 0])} {rng.randrange(254)} {dest} [{rng.randrange(256)},{rng.randrange(256)}]")
         elif r < 0.75:
             fut = [x for x in deadlines if x > now]
